@@ -7,5 +7,5 @@ rsync -a --exclude target --exclude .git /repo/ $d/
 sed -i "$2" $d/$1
 if diff -q /repo/$1 $d/$1 >/dev/null; then echo "MUTATION DID NOT APPLY"; rm -rf $d; exit 3; fi
 shift; shift
-for p in "$@"; do VERIF_REPO=$d /verif/vx check $p | grep -v "^UNDECIDED: .*rest on" ; echo "  -> $p rc=${PIPESTATUS[0]}"; done
+for p in "$@"; do VERIF_EVIDENCE_DIR=/verif/build/evidence-scratch VERIF_REPO=$d /verif/vx check $p | grep -v "^UNDECIDED: .*rest on" ; echo "  -> $p rc=${PIPESTATUS[0]}"; done
 rm -rf $d
